@@ -5,6 +5,7 @@ import Hive.Proofs.DerivedWG
 import Hive.Proofs.DerivedLocks
 import Hive.Proofs.DerivedVar
 import Hive.Proofs.DerivedAsync
+import Hive.Proofs.DerivedEvict
 import Hive.Spec.Derived
 import Hive.Gen.C14_Skel
 /-!
@@ -293,6 +294,42 @@ theorem C14_sorted_set_concurrent (less : Bool) (s : SSA) (hr : SSAReach (SSA.in
     s.lag.Good ∧ (s.quiescent → ∀ ent ∈ s.lag.ents, ent.w = s.cur ent.el) :=
   ⟨(SSA.inv_reach _ _ (SSA.inv_init less) hr).good,
    fun hq => SSA.weights_current s (SSA.inv_reach _ _ (SSA.inv_init less) hr) hq⟩
+
+/-! ## EvictionState under concurrency (protocol model `evSys`) -/
+
+/-- **EvictionState under every interleaving**: any number of goroutines with arbitrary scripts of
+`Evict` / `EvictionEvent` calls (`Evict` racing `EvictionEvent`, `Evict` racing another `Evict`; the
+events collected under the lock are triggered outside of it, one at a time).  Once every goroutine
+has returned, the real event handed out for a slot has triggered iff the slot is at or below the last
+evicted slot, and no event of such a slot is left (untriggered) in the map. -/
+theorem C14_eviction_concurrent (ts : List EVT) (h0 : ∀ t ∈ ts, t.todo = []) (c : Cfg EV EVT)
+    (hr : Reach evSys (EV.init, ts) c) (hq : ∀ t ∈ c.2, t.finished = true) :
+    (∀ slot ∈ c.1.handed, slot ∈ c.1.trig ↔ c.1.evicted slot = true) ∧
+    (∀ slot ∈ c.1.events, c.1.evicted slot = false) := by
+  have h := evpInv_reach ts h0 c hr
+  refine ⟨fun slot hh => ⟨h.below slot, fun he => ?_⟩, h.above⟩
+  rcases (h.handed slot).1 hh with h1 | h2 | ⟨t, ht, hx⟩
+  · have := h.above slot h1
+    simp [he] at this
+  · exact h2
+  · have := hq t ht
+    simp only [EVT.finished, Bool.and_eq_true, List.isEmpty_iff] at this
+    rw [this.1] at hx
+    simp at hx
+
+/-- At every moment (not only at quiescence): an event that has triggered, or is about to be
+triggered by the goroutine that collected it, belongs to an evicted slot, and the map only holds
+events of slots above the last evicted one. -/
+theorem C14_eviction_concurrent_safety (ts : List EVT) (h0 : ∀ t ∈ ts, t.todo = []) (c : Cfg EV EVT)
+    (hr : Reach evSys (EV.init, ts) c) :
+    (∀ slot ∈ c.1.trig, c.1.evicted slot = true) ∧ (∀ t ∈ c.2, ∀ slot ∈ t.todo, c.1.evicted slot = true) ∧
+    (∀ slot ∈ c.1.events, c.1.evicted slot = false) :=
+  let h := evpInv_reach ts h0 c hr
+  ⟨h.below, h.pending, h.above⟩
+
+example : ∃ c, Reach evSys (EV.init, [⟨[], [.event 3, .event 1]⟩, ⟨[], [.evict 2]⟩, ⟨[], [.evict 5, .event 2]⟩]) c ∧
+    c.1.trig = [1, 3] ∧ c.1.last = some 5 ∧ ∀ t ∈ c.2, t.finished = true :=
+  ⟨_, runSched_reach _ _ [(0, 0), (0, 0), (1, 0), (2, 0), (1, 0), (2, 0), (2, 0)], by decide⟩
 
 /-! ## No deadlock: lock order over the composed scripts -/
 
